@@ -128,4 +128,15 @@ theorem mem_phaseWarns (k : Kind) (p flag : InputDesc → Bool) (x : Inputs) (w 
     w ∈ phaseWarns k p flag x ↔ ∃ a ∈ args3, p (getArg x a) = true ∧ w = { kind := k, arg := a, flag := flag (getArg x a) } := by
   simp [phaseWarns, warnIf, mem_bif_singleton, args3]
 
+/-- no argument satisfies `p` ⇒ `p` is false on each of the three -/
+theorem firstBad_none (p : InputDesc → Bool) (o h f : InputDesc) (hn : firstBad p (o, h, f) = none) :
+    p o = false ∧ p h = false ∧ p f = false := by
+  cases ho : p o <;> cases hh : p h <;> cases hf : p f <;> simp [firstBad, args3, getArg, ho, hh, hf] at hn ⊢
+
+theorem firstBad_isSome_or_none (p : InputDesc → Bool) (x : Inputs) :
+    (∃ a, firstBad p x = some a) ∨ firstBad p x = none := by
+  cases h : firstBad p x with
+  | none => exact Or.inr rfl
+  | some a => exact Or.inl ⟨a, rfl⟩
+
 end Lemmas.Contract
